@@ -550,11 +550,12 @@ def evalOp (st : DriverState) : Sexp → Res Sexp
         | .atom "E" => .ok .empty
         | .str s => .ok (.named s)
         | _ => .error "namespace expected"
-      let decOp : Sexp → Dec ROp := fun e => match e with
+      let decOp : Sexp → Dec (Bool ⊕ ROp) := fun e => match e with
         | .list [.atom "reg", c, ns, bad] => do
-            let c ← decNat c; let ns ← decNs ns; let bad ← decBool bad; pure (.reg c ns bad)
-        | .list [.atom "regc", c, ns] => do let c ← decNat c; let ns ← decNs ns; pure (.regClass c ns)
-        | .list [.atom "unreg", c, ns] => do let c ← decNat c; let ns ← decNs ns; pure (.unreg c ns)
+            let c ← decNat c; let ns ← decNs ns; let bad ← decBool bad; pure (.inr (.reg c ns bad))
+        | .list [.atom "regc", c, ns] => do let c ← decNat c; let ns ← decNs ns; pure (.inr (.regClass c ns))
+        | .list [.atom "unreg", c, ns] => do let c ← decNat c; let ns ← decNs ns; pure (.inr (.unreg c ns))
+        | .list [.atom "warn", b] => do let b ← decBool b; pure (.inl b)
         | _ => .error "registry op expected"
       let ops ← Res.ofDec (decList decOp ops)
       let encObs : RObs → Sexp := fun o => match o with
@@ -568,15 +569,17 @@ def evalOp (st : DriverState) : Sexp → Res Sexp
       let errName : RErr → String := fun e => match e with
         | .type_ => "TypeError" | .value => "ValueError" | .attr => "AttributeError"
         | .warning => "UserWarning"
-      let rec goR : List ROp → RState → Nat → List Sexp → List Sexp
-        | [], _, _, acc => acc.reverse
-        | op :: ops, s, i, acc =>
-            let (s', e) := rstep regsmInfo warnErr s i op
+      -- the warnings filter is part of the history: `(warn b)` changes it between two calls
+      let rec goR : List (Bool ⊕ ROp) → Bool → RState → Nat → List Sexp → List Sexp
+        | [], _, _, _, acc => acc.reverse
+        | .inl w :: ops, _, s, i, acc => goR ops w s (i + 1) (l [Sexp.atom "ok", obs s] :: acc)
+        | .inr op :: ops, w, s, i, acc =>
+            let (s', e) := rstep regsmInfo w s i op
             let r := match e with
               | Option.none => Sexp.atom "ok"
               | some e => Sexp.atom (errName e)
-            goR ops s' (i + 1) (l [r, obs s'] :: acc)
-      pure (encOk (goR ops RState.init 0 []))
+            goR ops w s' (i + 1) (l [r, obs s'] :: acc)
+      pure (encOk (goR ops warnErr RState.init 0 []))
   | .list (.atom "ordersm" :: events) => do
       let decEvent : Sexp → Dec OEvent := fun e => match e with
         | .list [.atom "enter", m, .str ns] => do let m ← decBool m; pure (.enter m ns)
